@@ -203,11 +203,21 @@ class Collector(object):
         self.violations = []
         self.harness_errors = []
         self._rng = random.Random(seed * 7919 + shard)
+        # shrink-time cap: once a sub-property has failed, stop exploring new shrink candidates after
+        # `shrink_cap_s` (the last failing case still fails when Hypothesis replays it at the end)
+        self.shrink_cap_s = 40 if tier == 'quick' else 240
+        self.fail_t0 = {}
+        self.last_fail_hash = {}
+        self.skipped_shrink = 0
 
     def run_case(self, sub, case, replaying=False):
         """Run one case through the oracle, applying the known-finding policy."""
         if not replaying and time.time() > self.deadline:
             self.skipped_budget += 1
+            return
+        if not replaying and sub.name in self.fail_t0 and time.time() - self.fail_t0[sub.name] > self.shrink_cap_s \
+                and case_hash(case) != self.last_fail_hash.get(sub.name):
+            self.skipped_shrink += 1
             return
         try:
             info = sub.oracle(case) or {}
@@ -215,6 +225,9 @@ class Collector(object):
             v.case = case
             v.sub = sub.name
             kf = match_known(self.known, sub.name, case, v)
+            if kf is None:
+                self.fail_t0.setdefault(sub.name, time.time())
+                self.last_fail_hash[sub.name] = case_hash(case)
             if kf is not None:
                 self.known_hits[kf] += 1
                 self.known_examples.setdefault(kf, {'sub': sub.name, 'case': trim(case),
